@@ -3,7 +3,7 @@ CONSTANTS
   Names = {"n1"}
   SizeSel = "small"
   Limit = 2
-  Single = FALSE
+  FName = "pak01_dir.vpk"
   ArchIdx <- IdxAll
   NArch = 2
   Cs <- CsAll
